@@ -10,6 +10,7 @@ import (
 	"flag"
 	"fmt"
 	"log"
+	"net"
 	"regexp"
 	"strings"
 	"sync"
@@ -56,6 +57,7 @@ func runAcceptSeq(seq string) (obs string, problems []string) {
 	req := dvRequest()
 	var conns []*memConn
 	expectSleep := int64(0)
+	nTemp := 0
 	for _, tok := range seq {
 		if result != "" {
 			break
@@ -69,7 +71,13 @@ func runAcceptSeq(seq string) (obs string, problems []string) {
 			before := len(retryRe.FindAllString(logbuf.String(), -1))
 			calls := lis.acceptCount()
 			t0 := time.Now()
-			lis.ch <- acceptResult{err: tempError{}}
+			// kinds of temporary error, in rotation: plain, one that is also a timeout, one wrapped in *net.OpError
+			nTemp++
+			var terr error = tempError{timeout: nTemp%3 == 1}
+			if nTemp%3 == 2 {
+				terr = &net.OpError{Op: "accept", Net: "mem", Err: tempError{timeout: true}}
+			}
+			lis.ch <- acceptResult{err: terr}
 			lis.noteSent()
 			// wait for the retry log line
 			deadline := time.Now().Add(3 * time.Second)
